@@ -497,11 +497,19 @@ def parse_file(path, crate):
             fns[key] = f
             last_by_name[f.name] = f
     # simple consts:  const NAME: TY = const 100_usize;
-    for m in re.finditer(r"^const ([^\n]+?): ([^\n=]+?) = const ([^\n]+);$", txt, re.M):
-        f = Fn(m.group(1), crate)
+    for m in re.finditer(r"^const ([^\n]+) = const ([^\n]+);$", txt, re.M):
+        head = m.group(1)
+        k, dpt = -1, 0
+        for ii, ch in enumerate(head):
+            if ch == "<": dpt += 1
+            elif ch == ">" and head[ii - 1] not in "-=": dpt -= 1
+            elif dpt == 0 and head.startswith(": ", ii):
+                k = ii; break
+        if k < 0: continue
+        f = Fn(head[:k], crate)
         f.is_const = True
-        f.ret = m.group(2).strip()
-        f.raw_blocks = {"bb0": [f"_0 = const {m.group(3)};", "return;"]}
+        f.ret = head[k + 2:].strip()
+        f.raw_blocks = {"bb0": [f"_0 = const {m.group(2)};", "return;"]}
         f.locals["_0"] = f.ret
         fns[f.name] = f
     return fns
